@@ -124,12 +124,14 @@ func body(c scen, ctx *hk.Ctx) {
 func (r *run) thread(slot int, name string) {
 	s := r.s
 	switch name {
-	case "w1", "w1b", "w2", "w3":
+	case "w1", "w1b", "w1c", "w2", "w3":
 		stream, n, base := 1, 2, uint16(110)
 		var l *hk.Local
 		switch name {
 		case "w1b":
 			n, base = 1, 120
+		case "w1c":
+			n, base = 3, 150
 		case "w2":
 			stream, n, base = 2, 1, 130
 		case "w3":
@@ -315,6 +317,8 @@ func scenarios(tier string) []scen {
 		S("stats", 0, "w1", "rtcp-rr", "close"),
 		S("flexfec", 0, "w1", "w1b", "unbind-l1"),
 		S("flexfec", 0, "w1", "w3"),
+		S("flexfec", 0, "w1c", "w1b"),                                           // two batches can be in the encoder at once
+		{Kind: "flexfec", Variant: 1, Threads: []string{"w1", "w1b"}, Bound: b}, // k=1: every packet completes a batch
 		S("jitterbuffer", 0, "r1", "r1b", "unbind-r1"),
 		S("jitterbuffer", 0, "r1", "r2", "close"),
 		S("packetdump-sender", 0, "w1", "rtcpw", "close"),
@@ -323,6 +327,10 @@ func scenarios(tier string) []scen {
 		S("intervalpli", 2, "r3", "unbind-l1"),
 		S("pacing", 2, "w1", "w2", "setrate"),
 		S("pacing", 2, "w1", "setrate", "close"),
+		// the chain of all 14 pass-through interceptors
+		{Kind: "chain", Threads: []string{"w1", "r1", "close"}, Horizon: 1, Bound: 1},
+		{Kind: "chain", Threads: []string{"w1", "rtcp-twcc", "r1"}, Horizon: 1, Bound: 1},
+		{Kind: "chain", Threads: []string{"r1", "rtcp-sr", "get"}, Horizon: 1, Bound: 1},
 	}
 	return out
 }
